@@ -279,6 +279,8 @@ func checkValue(b *binding, o *rtl.Object, caseID string) {
 		K.Violation("marshal-error@"+b.goName, wit)
 		return
 	}
+	// the results of the previous few Marshal calls are still held: they must still be the bytes of THEIR values
+	recheckKept(b.goName)
 	if !bytes.Equal(got, want) {
 		at := firstDiff(got, want)
 		wit["first_diff_at"], wit["got_len"], wit["want_len"] = at, len(got), len(want)
@@ -286,6 +288,7 @@ func checkValue(b *binding, o *rtl.Object, caseID string) {
 		K.Violation("marshal-mismatch@"+b.goName, wit)
 		return
 	}
+	keep(b.goName, caseID, S.Line(o.Ctor), got, want)
 	// decode the reference bytes, followed by a sentinel that must stay unread
 	dv := reflect.New(b.goType)
 	rd := bytes.NewReader(append(append([]byte{}, want...), sentinel...))
@@ -362,6 +365,44 @@ func checkValue(b *binding, o *rtl.Object, caseID string) {
 				return
 			}
 		}
+	}
+}
+
+// keptResult is the result of an earlier tl.Marshal that the check keeps hold of, as a caller that
+// prepares several encoded values does. A returned byte slice belongs to the caller: whatever is
+// marshalled afterwards, it must keep spelling the value it was returned for.
+type keptResult struct {
+	goName, caseID, line string
+	got, want            []byte
+}
+
+var kept []keptResult // per process; checkValue runs on one goroutine
+
+func keep(goName, caseID, line string, got, want []byte) {
+	if len(got) == 0 || len(got) > 1<<20 {
+		return
+	}
+	if len(kept) >= 4 {
+		kept = kept[1:]
+	}
+	kept = append(kept, keptResult{goName, caseID, line, got, want})
+}
+
+// recheckKept runs right after a Marshal call (of a value of Go type `after`).
+func recheckKept(after string) {
+	for i := 0; i < len(kept); i++ {
+		r := kept[i]
+		K.Count("kept_marshal_results_rechecked", 1)
+		if bytes.Equal(r.got, r.want) {
+			continue
+		}
+		at := firstDiff(r.got, r.want)
+		K.Violation("marshal-result-changed-afterwards@"+r.goName, map[string]any{"go_type": r.goName, "schema_line": r.line, "case": r.caseID,
+			"changed_after_marshalling_a": after, "marshal_calls_in_between": len(kept) - i, "first_diff_at": at,
+			"now": window(r.got, at), "reference": window(r.want, at),
+			"note": "the byte slice returned by tl.Marshal was equal to the reference encoding when it was returned and no longer is"})
+		kept = append(kept[:i], kept[i+1:]...)
+		i--
 	}
 }
 
@@ -820,6 +861,116 @@ func sectionRequestDecoder(bs []*binding) {
 		K.Eval("reqdec-unknown")
 		if p != nil || name == nil || *name != liteclient.UnknownRequest {
 			K.Violation("request-decoder-unknown-id", map[string]any{"bytes": mon.Hex(b)})
+		}
+	}
+}
+
+// sectionMarshalConcurrent: 8 goroutines marshal values of every generated type and request struct at the
+// same time (a server answering several connections, a client with several workers). Value oracle: every
+// result equals the reference encoding of the value it was asked for - when it is returned and still
+// after the same goroutine has marshalled its next two values.
+func sectionMarshalConcurrent(bs []*binding) {
+	const G = 8
+	type item struct {
+		b    *binding
+		o    *rtl.Object
+		gv   reflect.Value
+		want []byte
+	}
+	per := N(3, 40)
+	lists := make([][]item, G)
+	for g := 0; g < G; g++ {
+		for _, b := range bs {
+			for k := 0; k < per; k++ {
+				rng := K.Rng("marshal-conc/"+b.goName, g*1000+k)
+				c := b.ctors[rng.Intn(len(b.ctors))]
+				o := S.RandomObject(rng, c, &rtl.GenOpts{Ctor: c.Name, BytesLen: func(r rtl.Rand) int { return r.Intn(300) }})
+				want, err := b.encode(o)
+				gv := reflect.New(b.goType)
+				if err != nil || bind.PopulateObject(S, o, gv.Elem()) != nil {
+					continue
+				}
+				lists[g] = append(lists[g], item{b, o, gv.Elem(), want})
+			}
+		}
+		rng := K.Rng("marshal-conc-order", g)
+		perm := rng.Perm(len(lists[g]))
+		sh := make([]item, len(perm))
+		for i, j := range perm {
+			sh[i] = lists[g][j]
+		}
+		lists[g] = sh
+	}
+	type bad struct {
+		sig string
+		wit map[string]any
+	}
+	found := make([][]bad, G)
+	begin("tl.Marshal of generated types|from 8 goroutines", nil)
+	var wg sync.WaitGroup
+	start := make(chan struct{})
+	for g := 0; g < G; g++ {
+		wg.Add(1)
+		go func(g int) {
+			defer wg.Done()
+			<-start
+			type held struct {
+				it  item
+				got []byte
+			}
+			var hold []held
+			for round := 0; round < N(4, 6); round++ {
+				for _, it := range lists[g] {
+					var got []byte
+					var err error
+					var pv any
+					func() {
+						defer func() { pv = recover() }()
+						got, err = ttl.Marshal(it.gv.Interface())
+					}()
+					check := func(h held, when string) {
+						if bytes.Equal(h.got, h.it.want) {
+							return
+						}
+						at := firstDiff(h.got, h.it.want)
+						found[g] = append(found[g], bad{"marshal-mismatch@concurrent/" + h.it.b.goName, map[string]any{"go_type": h.it.b.goName, "goroutine": g, "when": when,
+							"value": valueWitness(h.it.o), "first_diff_at": at, "got_len": len(h.got), "want_len": len(h.it.want), "got": window(h.got, at), "want": window(h.it.want, at)}})
+					}
+					if pv != nil || err != nil {
+						found[g] = append(found[g], bad{"marshal-error@concurrent/" + it.b.goName, map[string]any{"go_type": it.b.goName, "err": fmt.Sprint(err, pv), "value": valueWitness(it.o)}})
+					} else {
+						check(held{it, got}, "when returned")
+						for _, h := range hold {
+							check(h, "after this goroutine marshalled further values")
+						}
+						hold = append(hold, held{it, got})
+						if len(hold) > 2 {
+							hold = hold[1:]
+						}
+					}
+					if len(found[g]) > 5 {
+						return
+					}
+				}
+			}
+		}(g)
+	}
+	close(start)
+	wg.Wait()
+	end()
+	total := 0
+	for g := range lists {
+		total += len(lists[g]) * N(4, 6)
+	}
+	K.EvalN(int64(total), "marshal-concurrent")
+	K.Count("concurrent_marshal_calls", int64(total))
+	seen := map[string]bool{}
+	for g := range found {
+		for _, x := range found[g] {
+			if !seen[x.sig] {
+				seen[x.sig] = true
+				K.Violation(x.sig, x.wit)
+			}
 		}
 	}
 }
@@ -1649,6 +1800,7 @@ func workerMisc(w *mon.Worker) {
 	sectionPrimitiveVectors()
 	sectionRequestDecoder(bs)
 	sectionRequestDecoderConcurrent(bs)
+	sectionMarshalConcurrent(bs)
 	sectionHandWritten()
 }
 
@@ -1670,7 +1822,7 @@ func main() {
 	}
 	R = mon.Start("C10", tier)
 	K = R
-	R.Rule = "for every line of lite_api.tl (as parsed by the reference TL model, not by tongo) abstract values are drawn (every subset of the mode bits the line consults x byte-string lengths {0,1,2,3,4,253,254,255,256,1100}, plus free random values, plus lengths around 2^16 / 2^24), placed positionally into the generated Go type found by scanning generated.go, and compared: tl.Marshal bytes == reference bytes; tl.Unmarshal(reference bytes ‖ sentinel) == value, consuming exactly the value; LiteapiRequestDecoder(reference request) names the function and returns the value, also when 8 goroutines decode different requests of the same function at the same time (each must get its own request back); each *Client method talks to a reference ADNL server which compares the decrypted query with adnl.message.query{liteServer.query{id ‖ args}} and answers with the reference encoding of a random result (or liteServer.error); tl.Marshal/Unmarshal of plain []byte/string for every length 0..1100; the hand-written requests WaitMasterchainBlock / WaitMasterchainSeqno likewise (incl. liteServer.error answers); per method one answer that is a boxed value of another type (must be refused) and, for a few methods, byte strings of 65535/65536/200000 bytes in the answer or the request (long-form length in the adnl.message.* / liteServer.query envelopes); every value is decoded a second time from a reader that returns 1..5 bytes per Read, and boxed values are offered with a foreign constructor id (must be refused); tl.Marshal/Unmarshal of Go slices of every element kind; hand-written codecs likewise; the two generators are re-run and their gofmt'ed output compared with the checked-in files. non-trivial = a value that was encoded and compared; distinct = distinct (Go type, constructor, presence pattern, byte-string / vector length classes)"
+	R.Rule = "for every line of lite_api.tl (as parsed by the reference TL model, not by tongo) abstract values are drawn (every subset of the mode bits the line consults x byte-string lengths {0,1,2,3,4,253,254,255,256,1100}, plus free random values, plus lengths around 2^16 / 2^24), placed positionally into the generated Go type found by scanning generated.go, and compared: tl.Marshal bytes == reference bytes, also re-compared after each of the next four Marshal calls (a returned slice belongs to the caller) and when 8 goroutines marshal values of all types at the same time; tl.Unmarshal(reference bytes ‖ sentinel) == value, consuming exactly the value; LiteapiRequestDecoder(reference request) names the function and returns the value, also when 8 goroutines decode different requests of the same function at the same time (each must get its own request back); each *Client method talks to a reference ADNL server which compares the decrypted query with adnl.message.query{liteServer.query{id ‖ args}} and answers with the reference encoding of a random result (or liteServer.error); tl.Marshal/Unmarshal of plain []byte/string for every length 0..1100; the hand-written requests WaitMasterchainBlock / WaitMasterchainSeqno likewise (incl. liteServer.error answers); per method one answer that is a boxed value of another type (must be refused) and, for a few methods, byte strings of 65535/65536/200000 bytes in the answer or the request (long-form length in the adnl.message.* / liteServer.query envelopes); every value is decoded a second time from a reader that returns 1..5 bytes per Read, and boxed values are offered with a foreign constructor id (must be refused); tl.Marshal/Unmarshal of Go slices of every element kind; hand-written codecs likewise; the two generators are re-run and their gofmt'ed output compared with the checked-in files. non-trivial = a value that was encoded and compared; distinct = distinct (Go type, constructor, presence pattern, byte-string / vector length classes)"
 	R.Assume("reference TL model harness/ref/tl is correct: pinned at start-up by real lite-server answers in ton/testdata, the overlay-id network constants and the byte-string examples of the TL documentation")
 	R.Assume("Go values are populated positionally: the i-th Go field of a generated struct is the i-th schema field whose type is not `true`")
 	R.Assume("the constructor ids written in lite_api.tl are taken as given (their agreement with CRC32 of the official schema lines is not part of the property)")
